@@ -30,6 +30,8 @@ FUNCS = ("alpha", "beta", "gamma", "delta", "al", "bl")
 
 
 def modname(which: str, pkg: str) -> str:
+    if which == "extra":
+        return "extra"
     if pkg == "flat":
         return which
     if pkg in ("subabs", "subrel"):            # mid is an ordinary module of the package, next to base
@@ -76,6 +78,8 @@ def build_tree(rec: dict) -> Dict[str, str]:
         files["pkg/impl.py"], files["pkg/lib.py"], files["pkg/__init__.py"] = base, mid, ""
     else:
         files["pkg/impl.py"], files["pkg/__init__.py"] = base, mid
+    if c["variant"] == "twostars":
+        files["extra.py"] = 'def beta():\n    return "beta@extra"\n\n\ndef zeta():\n    return "zeta@extra"\n'
     if c["top"] != "absent":
         wanted_mid = sorted(set(rec["midnames"]) & set(FUNCS))
         files["top.py"] = import_stmt(c["top"], modname("mid", pkg), wanted_mid, "top") + '\n\ndef delta():\n    return "delta@top"\n'
@@ -104,6 +108,8 @@ def client_text(rec: dict) -> Optional[str]:
         if variant in ("infunc", "unused"):
             return None
         imp = f"from {outer} import *\n"
+        if variant == "twostars":
+            imp = "from extra import *\n" + imp
         refs = uses
     elif form == "module":
         if variant == "unused":
@@ -204,6 +210,122 @@ def _case(mods, rec):
         shutil.rmtree(tmp, ignore_errors=True)
 
 
+# ------------------------------------------------------------------------------------------ the client's own imports (InitStd)
+STD_STMT = {"import_os_path": "import os.path", "import_conc_futures": "import concurrent.futures", "import_xml_minidom": "import xml.dom.minidom",
+            "from_os_path": "from os import path", "from_sys_path": "from sys import path", "import_json_as_j": "import json as j",
+            "import_json": "import json", "from_json_dumps": "from json import dumps as dump", "from_pickle_dumps": "from pickle import dumps as dump",
+            "from_ospath_join": "from os.path import join", "from_shlex_join": "from shlex import join", "import_pickle_as_json": "import pickle as json"}
+# the expression by which the client uses what a statement binds
+STD_USE = {"os": "os.path.join", "concurrent": "concurrent.futures.Future", "xml": "xml.dom.minidom.parseString", "path": "path", "j": "j.loads",
+           "json": "json.loads", "dump": "dump", "join": "join"}
+
+
+def std_expected(obj: str):
+    import importlib as il
+    if obj.startswith("mod:"):
+        return il.import_module(obj[4:])
+    mod, _, attr = obj.rpartition(".")
+    return getattr(il.import_module(mod), attr)
+
+
+def std_client(rec) -> str:
+    stmts = [STD_STMT[i] for i in rec["stmts"]]
+    names = sorted({n for n, _ in rec["resolve"]})
+    refs = ", ".join(STD_USE[n] for n in names)
+    if rec["place"] == "infunc":
+        return "def use():\n" + "".join(f"    {s}\n" for s in stmts) + f"    return [{refs}]\n\n\nprint(len(use()))\n"
+    if rec["place"] == "mixed" and len(stmts) > 1:
+        return "\n".join(stmts[:-1]) + "\n\n\ndef use():\n" + f"    {stmts[-1]}\n    return [{refs}]\n\n\nprint(len(use()))\n"
+    return "\n".join(stmts) + "\n\n\ndef use():\n" + f"    return [{refs}]\n\n\nprint(len(use()))\n"
+
+
+def _std_case(mods, rec):
+    text = std_client(rec)
+    names = sorted({n for n, _ in rec["resolve"]})
+    tmp = os.path.realpath(tempfile.mkdtemp(prefix="verif-c18s-"))
+    import contextlib
+    import io
+    try:
+        os.chdir(tmp)
+        sys.path.insert(0, tmp)
+        Path(tmp, "client_a.py").write_text(text)
+        try:
+            with contextlib.redirect_stdout(io.StringIO()):
+                objs_a = importlib.import_module("client_a").use()
+        except BaseException as exc:  # noqa: BLE001
+            return {"machinery": f"the generated client does not run: {type(exc).__name__}: {exc}", "client": text}
+        # ---- (C): LastBinding against CPython.  The use expression goes one attribute further for module objects.
+        want = dict(rec["resolve"])
+        for n, o in zip(names, objs_a):
+            root = std_expected(want[n])
+            tail = STD_USE[n].split(".")[1:]
+            for a in tail:
+                root = getattr(root, a)
+            if root is not o:
+                return {"machinery": f"LastBinding of Imports.tla differs from CPython for {n}", "client": text, "spec": want[n]}
+        try:
+            formatted = mods["main"].format_code(text, preserve=frozenset({"use"}))
+        except BaseException as exc:  # noqa: BLE001
+            if isinstance(exc, KeyboardInterrupt):
+                raise
+            return {"bad": f"format_code raised {type(exc).__name__}: {exc}", "client": text, "formatted": None}
+        res = {"client": text, "formatted": formatted, "changed": formatted != text}
+        if formatted == text:
+            return res
+        Path(tmp, "client_b.py").write_text(formatted)
+        importlib.invalidate_caches()
+        try:
+            with contextlib.redirect_stdout(io.StringIO()):
+                mod_b = importlib.import_module("client_b")
+                objs_b = (getattr(mod_b, "use", None) or getattr(mod_b, "_use"))()
+        except BaseException as exc:  # noqa: BLE001
+            res["bad"] = f"the formatted client no longer runs: {type(exc).__name__}: {exc}"
+            return res
+        diff = [(n, repr(a)[:60], repr(b)[:60]) for n, a, b in zip(names, objs_a, objs_b) if a is not b]
+        if len(objs_a) != len(objs_b) or diff:
+            res["bad"] = f"referenced names resolve to different objects after formatting: {diff}"
+        return res
+    finally:
+        os.chdir("/")
+        shutil.rmtree(tmp, ignore_errors=True)
+
+
+def std_part(rep: Report, t: str, rng: random.Random, known) -> Tuple[int, int]:
+    cfg = "\n".join(["CONSTANTS", '  BaseAlls = {"none"}', '  MidForms = {"from"}', '  TopForms = {"absent"}', '  ClientForms = {"from"}',
+                     '  Variants = {"plain"}', '  Pkgs = {"flat"}', "  MaxUses = 1", f"  MaxStd = {2 if t == 'quick' else 3}",
+                     '  StdPlaces = {"top", "infunc", "mixed"}', "INIT InitStd", "NEXT Next", "INVARIANT DumpStd", "CHECK_DEADLOCK FALSE", ""])
+    res = run_tlc("Imports", cfg, timeout_s=1800, keep_stdout=False)
+    rep.add_tlc(res, "Imports (standard library statements)")
+    recs = res.records
+    if not recs:
+        raise MachineryError("Imports: no standard library cases")
+    results = workers.run_tasks(_std_case, recs, init=_init, procs=16, timeout=300, fork_per_task=True)
+    n_run = n_changed = 0
+    for rec, r in zip(recs, results):
+        if not isinstance(r, dict):
+            raise MachineryError(f"case did not finish: {r} ({rec})")
+        if "machinery" in r:
+            raise MachineryError(f"{r['machinery']}: {json.dumps({k: v for k, v in r.items() if k != 'machinery'}, default=str)[:1500]}")
+        n_run += 1
+        n_changed += bool(r.get("changed"))
+        if "bad" not in r:
+            continue
+        sh = blame.shape(r["client"], r["formatted"]) if r.get("formatted") else {}
+        binds = {}
+        for i in rec["stmts"]:
+            binds.setdefault(STD_STMT[i].split()[-1], []).append(i)
+        feats = [f"std-{i}" for i in rec["stmts"]] + [f"place-{rec['place']}"] + (["same-name-bound-twice"] if any(len(v) > 1 for v in binds.values()) else [])
+        sh = dict(sh, features=list(sh.get("features", [])) + feats)
+        kf = next((e["id"] for e in known if blame.matches_signature(e, "format_code", sh, r["client"])), None)
+        case = {"statements": [STD_STMT[i] for i in rec["stmts"]], "place": rec["place"], "client": r["client"], "formatted": r.get("formatted"),
+                "resolve": rec["resolve"]}
+        if kf:
+            rep.known(kf, case)
+        else:
+            rep.violation(f"{r['bad']} (client imports: {'; '.join(STD_STMT[i] for i in rec['stmts'])}; placed {rec['place']})", case)
+    return n_run, n_changed
+
+
 def main(argv=None) -> int:
     rep = Report(PROP, "model_checking")
     import_pyrefact()
@@ -213,8 +335,8 @@ def main(argv=None) -> int:
     cfg = "\n".join(["CONSTANTS", '  BaseAlls = {"none", "alpha"}', '  MidForms = {"from", "alias", "star", "module", "redef"}',
                      '  TopForms = {"absent", "from", "alias", "star", "module", "redef"}',
                      '  ClientForms = {"from", "alias", "star", "module", "modalias"}',
-                     '  Variants = {"plain", "dup", "infunc", "unused", "stacked", "late"}', '  Pkgs = {"flat", "pkgabs", "pkgrel", "subabs", "subrel"}',
-                     f"  MaxUses = {2 if t == 'quick' else 3}", "INIT Init", "NEXT Next", "INVARIANT OriginsAreDefinitions", "INVARIANT Dump",
+                     '  Variants = {"plain", "dup", "infunc", "unused", "stacked", "late", "twostars"}', '  Pkgs = {"flat", "pkgabs", "pkgrel", "subabs", "subrel"}',
+                     f"  MaxUses = {2 if t == 'quick' else 3}", "  MaxStd = 1", '  StdPlaces = {"top"}', "INIT Init", "NEXT Next", "INVARIANT OriginsAreDefinitions", "INVARIANT Dump",
                      "CHECK_DEADLOCK FALSE", ""])
     res = run_tlc("Imports", cfg, timeout_s=3000, keep_stdout=False, heap_gb=12)
     rep.add_tlc(res, "Imports")
@@ -252,9 +374,11 @@ def main(argv=None) -> int:
             rep.violation(f"{r['bad']} (tree {rec['case']['pkg']}, mid takes names by '{rec['case']['mid']}', top by '{rec['case']['top']}', "
                           f"client by '{rec['case']['client']}', variant {rec['case']['variant']})", case)
     rep.sample({"case": recs[0]["case"], "client": client_text(recs[0]), "tree": build_tree(recs[0])})
-    rep.coverage["evaluations"] = n_run
-    rep.coverage["distinct_nontrivial"] = n_changed
-    rep.coverage["traces_validated_against_impl"] = n_run
+    s_run, s_changed = std_part(rep, t, rng, known)
+    rep.coverage["standard_library_cases"] = s_run
+    rep.coverage["evaluations"] = n_run + s_run
+    rep.coverage["distinct_nontrivial"] = n_changed + s_changed
+    rep.coverage["traces_validated_against_impl"] = n_run + s_run
     rep.coverage["rule"] = ("Imports.tla cases (base/__all__ x 5 re-export forms in mid x 6 in top x 5 client import forms x 6 statement variants x flat / "
                             "package with absolute / relative imports x referenced-name subsets) materialised on disk; Resolve validated against CPython; "
                             "client formatted with cwd at the tree; object identity of every referenced name before / after; non-trivial = the text changed")
